@@ -12,6 +12,7 @@ import Drv.DSet
 import Drv.Student
 import Drv.Chi2
 import Drv.Table
+import Drv.T4Scan
 open Lean
 
 def dispatch (model : String) (j : Json) : Except String Json :=
@@ -23,6 +24,7 @@ def dispatch (model : String) (j : Json) : Except String Json :=
   | "student" => Drv.Student.run j
   | "chi2" => Drv.Chi2.run j
   | "table" => Drv.Table.run j
+  | "t4scan" => Drv.T4Scan.run j
   | "bonf" => Drv.Bonf.run j
   | "depgraph" => Drv.DepGraph.run j
   | "envp" => Drv.EnvP.run j
